@@ -21,7 +21,7 @@ Shapes understood
                         (or a final `Ok(())`)
   serialized_size     : `self.<f>.serialized_size(compress) + ...`
   deserialize_with_mode:
-      `let <loc> = <Type>::deserialize_with_mode(&mut reader, compress, Validate::No | validate)?;`
+      `let <loc> = <Type>::deserialize_with_mode(&mut reader, compress, Validate::No | Validate::Yes | validate)?;`
       `let <loc> = <prep>;`   with <prep> one of  `E::G2Prepared::from(<x>.clone())`, `<x>.into()`,
                               `<x>.clone().into()`, `<x>.iter().map(|y| y.clone().into()).collect()`
       `let result = Self { f, f: loc, f: Cow::Owned(loc), f: <prep>, .. };`  (no `..base`)
@@ -404,11 +404,11 @@ def parse_deserialize(body, where):
         if m:
             loc, rhs = m.group(2), m.group(3).strip()
             rq = squash(rhs)
-            dm = re.match(r"^(.+)::deserialize_with_mode\(&mutreader,compress,(Validate::No|validate),?\)\?$", rq)
+            dm = re.match(r"^(.+)::deserialize_with_mode\(&mutreader,compress,(Validate::No|Validate::Yes|validate),?\)\?$", rq)
             if dm:
                 if any(r[0] == loc for r in reads) or loc in prep_locals:
                     fail(where, "local `%s` is bound twice" % loc)
-                reads.append((loc, norm_type(dm.group(1)), dm.group(2) == "validate"))
+                reads.append((loc, norm_type(dm.group(1)), dm.group(2) != "Validate::No"))
                 continue
             if re.match(r"^(Self|%s(::<.*>)?)\{" % IDENT, rq):
                 if literal is not None:
